@@ -1,6 +1,7 @@
 import Mitx.Driver.Proto
 import Mitx.Model.EvalQ
 import Mitx.Model.ParserState
+import Mitx.Model.ParserHeap
 namespace Drv
 open Lean Proto C03
 
@@ -60,6 +61,30 @@ def parseHist (j : Json) : Except String Json := do
     let jo := jo.setObjVal! "cache" (jList Json.str (dedupSorted (st'.cache.map (·.1))))
     (st', outs ++ [jo])
   let (_, outs) := calls.foldl step (PS.init, [])
+  pure (Json.mkObj [("out", Json.arr outs.toArray)])
+
+end Drv
+
+namespace Drv
+open Lean Proto C03
+
+/-- the same history on the object-identity model: per call the object id bound to the parser afterwards, the id of the
+    set object the returned expression holds, and the names read through every cached expression -/
+def parseHistHeap (j : Json) : Except String Json := do
+  let calls ← getList getStr (← field j "calls")
+  let mode := match (j.getObjValD "mode") with | Json.str "clear" => PH.ResetMode.clear | _ => PH.ResetMode.rebind
+  let step := fun (acc : PH.HSt × List Json) (s : String) =>
+    let (st, outs) := acc
+    let (st', o) := PH.parse mode st s
+    let jo := match o with
+      | .ok e => Json.mkObj [("expr", Json.num (e.2 : Nat)), ("usage", usageJson (PH.readExpr st' e).2)]
+      | .unableToParse _ => Json.mkObj [("expr", Json.null)]
+    let jo := jo.setObjVal! "scratch" (Json.num (st'.scratch : Nat))
+    let jo := jo.setObjVal! "scratch_empty" (Json.bool (PH.hget st'.heap st'.scratch).isEmpty)
+    let jo := jo.setObjVal! "cached" (Json.arr ((st'.cache.map (fun p => Json.mkObj [("key", Json.str p.1), ("id", Json.num (p.2.2 : Nat)),
+      ("usage", usageJson (PH.readExpr st' p.2).2)])).toArray))
+    (st', outs ++ [jo])
+  let (_, outs) := calls.foldl step (PH.init, [])
   pure (Json.mkObj [("out", Json.arr outs.toArray)])
 
 end Drv
